@@ -9,9 +9,244 @@ Every step carries the same information twice: `keys`/`if`/`config` are what hei
 values), `keys`/`cond`/`cfg` are what the Lean model reads (a condition class and the tag of the override
 payload).  `step()` is the only place that builds a step, so the two views cannot drift apart."""
 import itertools
+import json
+import os
+import re
 
 COND_EXPR = 'Request.Header("X-Skip") != "1"'
 COND_LITERAL = {"expr": COND_EXPR, "empty": "", "invalid": "Request.Header(", "nonstring": 42}
+
+# ---------------------------------------------------------------------------------------------------------------
+# CEL expressions as trees.  The Lean side computes the static result type from the TREE (Model/FactoryCel.lean),
+# heimdall gets the TEXT `cel_render` prints for it; the generator does not say whether an expression is acceptable.
+
+
+def B(b):
+    return {"b": b}
+
+
+def I(n):
+    return {"i": n}
+
+
+def S(s):
+    return {"s": s}
+
+
+def V(n):
+    return {"var": n}
+
+
+def sel(e, *fields):
+    for f in fields:
+        e = {"sel": [e, f]}
+    return e
+
+
+def idx(e, i):
+    return {"idx": [e, i]}
+
+
+def lst(e):
+    return {"list": e}
+
+
+def mp(k, e):
+    return {"map": [k, e]}
+
+
+def eq(a, b):
+    return {"eq": [a, b]}
+
+
+def ne(a, b):
+    return {"ne": [a, b]}
+
+
+def and_(a, b):
+    return {"and": [a, b]}
+
+
+def or_(a, b):
+    return {"or": [a, b]}
+
+
+def not_(a):
+    return {"not": a}
+
+
+def ite(c, a, b):
+    return {"ite": [c, a, b]}
+
+
+def call(recv, fn, *args):
+    return {"call": [recv, fn] + list(args)}
+
+
+def fn(name, arg):
+    return {"fn": [name, arg]}
+
+
+def raw(text):
+    return {"raw": text}
+
+
+_PRIMARY = ("b", "i", "s", "list", "map", "var", "sel", "idx", "call", "fn")
+_BINARY = {"eq": "==", "ne": "!=", "and": "&&", "or": "||"}
+
+
+def cel_render(a):
+    """the CEL text of a tree; every operand that is not a primary expression is parenthesised"""
+    (k, v), = a.items()
+
+    def prim(x):
+        return cel_render(x) if next(iter(x)) in _PRIMARY else "(" + cel_render(x) + ")"
+    if k == "b":
+        return "true" if v else "false"
+    if k == "i":
+        return str(v)
+    if k == "s":
+        return json.dumps(v)
+    if k == "list":
+        return "[" + cel_render(v) + "]"
+    if k == "map":
+        return "{" + json.dumps(v[0]) + ": " + cel_render(v[1]) + "}"
+    if k == "var":
+        return v
+    if k == "sel":
+        return prim(v[0]) + "." + v[1]
+    if k == "idx":
+        return prim(v[0]) + "[" + cel_render(v[1]) + "]"
+    if k in _BINARY:
+        return prim(v[0]) + " " + _BINARY[k] + " " + prim(v[1])
+    if k == "not":
+        return "!" + prim(v)
+    if k == "ite":
+        return prim(v[0]) + " ? " + prim(v[1]) + " : " + prim(v[2])
+    if k == "call":
+        return prim(v[0]) + "." + v[1] + "(" + ", ".join(cel_render(x) for x in v[2:]) + ")"
+    if k == "fn":
+        return v[0] + "(" + cel_render(v[1]) + ")"
+    if k == "raw":
+        return v
+    raise ValueError("cel_render: " + repr(a))
+
+
+_SUBJECT, _PAYLOAD, _REQUEST, _OUTPUTS = V("Subject"), V("Payload"), V("Request"), V("Outputs")
+
+
+def _hdr(name):
+    return call(_REQUEST, "Header", S(name))
+
+
+_SKIPPED = eq(_hdr("X-Skip"), S("1"))
+SKIP = ne(_hdr("X-Skip"), S("1"))            # the condition of the older streams: holds unless the probe sends X-Skip: 1
+_QUERY = call(sel(_REQUEST, "URL"), "Query")
+_ATTR_X = eq(sel(_SUBJECT, "Attributes", "x"), B(True))
+
+# `if` conditions.  Every member of COND_ANY / COND_SUBJECT evaluates, for every probe request, to what SKIP evaluates
+# to (so the probe semantics of the model needs no CEL interpreter); COND_SUBJECT needs `Subject` at run time (steps of
+# `execute`), COND_ANY also works in `on_error`.  Most of them are boolean expressions over `dyn` sub-terms.
+COND_ANY = [
+    SKIP,
+    not_(_SKIPPED),
+    eq(_SKIPPED, B(False)),
+    ite(_SKIPPED, B(False), B(True)),
+    ne(fn("dyn", _hdr("X-Skip")), S("1")),
+    and_(SKIP, call(sel(_REQUEST, "URL", "Path"), "startsWith", S("/"))),
+    and_(SKIP, ne(sel(_REQUEST, "Method"), S(""))),
+    or_(SKIP, eq(sel(_REQUEST, "URL", "Path"), S(""))),
+    ne(idx(lst(_hdr("X-Skip")), I(0)), S("1")),
+    ne(sel(mp("h", _hdr("X-Skip")), "h"), S("1")),
+    and_(SKIP, eq(call(_QUERY, "size"), I(0))),
+    and_(SKIP, or_(eq(sel(_OUTPUTS, "y"), B(True)), B(True))),
+]
+COND_SUBJECT = [
+    and_(SKIP, ne(sel(_SUBJECT, "ID"), S(""))),
+    and_(eq(sel(_SUBJECT, "ID"), sel(_SUBJECT, "ID")), SKIP),
+    and_(SKIP, or_(_ATTR_X, B(True))),
+    and_(SKIP, or_(and_(sel(_SUBJECT, "Attributes", "a"), sel(_SUBJECT, "Attributes", "b")), B(True))),
+    and_(SKIP, or_(not_(sel(_SUBJECT, "Attributes", "a")), B(True))),
+]
+# `expressions` of the cel authorizer (Subject, Request, Outputs at run time) and of the remote authorizer (Payload):
+# boolean, and true for every probe request
+EXPR_BOTH = [B(True), eq(I(1), I(1)), not_(B(False)), eq(S("a"), S("a"))]
+EXPR_CEL = EXPR_BOTH + [
+    ne(sel(_SUBJECT, "ID"), S("")),
+    eq(_hdr("X-Cred"), S("t")),
+    or_(_ATTR_X, B(True)),
+    or_(eq(sel(_OUTPUTS, "y"), I(1)), B(True)),
+    or_(eq(idx(_OUTPUTS, S("y")), S("a")), B(True)),
+]
+EXPR_REMOTE = EXPR_BOTH + [
+    or_(eq(sel(_PAYLOAD, "x"), I(1)), B(True)),
+    or_(sel(_PAYLOAD, "ok"), B(True)),
+]
+# never acceptable, by class
+CEL_NONBOOL = [
+    I(1), S("x"), lst(I(1)), mp("a", I(1)), lst(B(True)), _hdr("X"), _QUERY, sel(_QUERY, "x"),
+    idx(idx(_QUERY, S("x")), I(0)), _OUTPUTS, call(S("a"), "size"), fn("size", S("a")), ite(B(True), I(1), I(2)),
+    call(sel(_REQUEST, "URL"), "String"),
+]
+CEL_DYN = [
+    sel(_SUBJECT, "Attributes", "external"), sel(_SUBJECT, "Attributes", "admin"),
+    idx(sel(_SUBJECT, "Attributes", "groups"), I(0)), sel(_SUBJECT, "ID"), _SUBJECT, _PAYLOAD, _REQUEST,
+    sel(_PAYLOAD, "x"), idx(_PAYLOAD, I(0)), sel(idx(sel(_PAYLOAD, "x", "y"), I(1)), "z"),
+    sel(_OUTPUTS, "y"), idx(_OUTPUTS, S("y")), sel(_OUTPUTS, "y", "z"),
+    sel(_REQUEST, "Method"), sel(_REQUEST, "URL", "Path"), call(_REQUEST, "Body"), sel(call(_REQUEST, "Body"), "x"),
+    idx(sel(_REQUEST, "ClientIPAddresses"), I(0)), fn("dyn", B(True)), fn("dyn", I(1)),
+    ite(B(True), sel(_SUBJECT, "ID"), I(1)), ite(B(True), B(True), sel(_SUBJECT, "x")),
+    idx(lst(sel(_SUBJECT, "a")), I(0)), sel(mp("a", _PAYLOAD), "a"),
+]
+CEL_SYNTAX = [raw(t) for t in ("Request.Header(", "true ||", "1 +", ")", "a b", '"abc', "Subject..ID", "== true", "   ",
+                               "true &&& false", "if true")]
+CEL_UNKNOWN = [
+    V("Foo"), eq(sel(V("Foo"), "bar"), I(1)), eq(sel(V("subject"), "ID"), S("a")), fn("nope", I(1)),
+    call(sel(_SUBJECT, "ID"), "nope"), eq(call(_REQUEST, "Nope", S("a")), S("b")), eq(I(1), S("a")),
+    and_(I(1), B(True)), not_(I(1)), sel(B(True), "x"), idx(I(1), I(0)), eq(call(_REQUEST, "Header", I(1)), S("a")),
+    eq(fn("size", I(1)), I(1)), call(S("a"), "startsWith", I(1)),
+]
+CEL_BAD = {"nonbool": CEL_NONBOOL, "dyn": CEL_DYN, "syntax": CEL_SYNTAX, "unknown": CEL_UNKNOWN}
+CEL_ALL_BAD = [e for k in ("nonbool", "dyn", "syntax", "unknown") for e in CEL_BAD[k]]
+# text -> tree, for every expression the generator can produce
+CEL = {}
+for _e in COND_ANY + COND_SUBJECT + EXPR_CEL + EXPR_REMOTE + CEL_ALL_BAD:
+    _t = cel_render(_e)
+    assert CEL.get(_t, _e) == _e, "two trees for " + _t
+    CEL[_t] = _e
+assert cel_render(SKIP) == COND_EXPR
+
+
+def cel_case():
+    """operation `cel` of the family: the static type of every expression of the table, model vs cel-go"""
+    srcs = sorted(CEL)
+    return {"fam": "factory", "op": "cel", "exprs": srcs, "cel": [{"src": t, "ast": CEL[t]} for t in srcs]}
+
+
+# ---------------------------------------------------------------------------------------------------------------
+# the names of the mechanism types heimdall's registries know, read from the tree under test: referenced as ids they
+# are unknown mechanisms unless the catalogue defines such an id for that kind
+
+def type_names():
+    try:
+        import vlib
+        repo = vlib.REPO
+    except Exception:       # noqa: BLE001
+        repo = os.environ.get("VERIF_REPO", "/repo")
+    res = {}
+    for kind, pkg in (("authn", "authenticators"), ("authz", "authorizers"), ("ctx", "contextualizers"),
+                      ("fin", "finalizers"), ("eh", "errorhandlers")):
+        path = os.path.join(repo, "internal", "rules", "mechanisms", pkg, "constants.go")
+        with open(path) as fh:
+            names = re.findall(r'^\s*\w+\s*=\s*"([a-z0-9_]+)"', fh.read(), re.M)
+        if not names:
+            raise RuntimeError("no mechanism type names found in " + path)
+        res[kind] = names
+    return res
+
+
+TYPE_NAMES = type_names()
+ALL_TYPE_NAMES = sorted({n for ns in TYPE_NAMES.values() for n in ns})
 
 # override payloads per mechanism type: tag -> literal.  Tag 0 is the empty map, tag 1 an override whose effect is
 # visible in the trace, tag 2 another acceptable one, tags 8 and 9 are refused by the mechanism.
@@ -21,6 +256,9 @@ PAYLOADS = {
     "authn/anonymous": {0: {}, 1: {"subject": "ovr"}, 8: {"no_such_field": 1}, 9: {"subject": {"a": "b"}}},
     "authz/remote": {0: {}, 1: {"values": {"v": "ovr"}}, 2: {"cache_ttl": "0s"},
                      8: {"no_such_field": 1}, 9: {"expressions": [{"expression": "true ||"}]}},
+    "authz/cel": {0: {}, 1: {"expressions": [{"expression": "true"}]},
+                  2: {"expressions": [{"expression": 'Subject.ID != ""', "message": "m"}]},
+                  8: {"no_such_field": 1}, 9: {"expressions": [{"expression": "Subject.Attributes.admin"}]}},
     "ctx/generic": {0: {}, 1: {"values": {"v": "ovr"}}, 2: {"continue_pipeline_on_error": False},
                     8: {"no_such_field": 1}, 9: {"cache_ttl": "soon"}},
     "fin/header": {0: {}, 1: None, 8: {"no_such_field": 1}, 9: {"headers": {}}},   # tag 1 depends on the id
@@ -28,7 +266,8 @@ PAYLOADS = {
     "eh/default": {0: {}, 8: {"no_such_field": 1}, 9: {"to": "http://elsewhere.test/"}},
     "eh/www_authenticate": {0: {}, 8: {"no_such_field": 1}, 9: {"realm": {"a": "b"}}},
 }
-GOOD = {"authn/generic": [0, 1, 2], "authn/anonymous": [0, 1], "authz/remote": [0, 1, 2], "ctx/generic": [0, 1, 2],
+GOOD = {"authn/generic": [0, 1, 2], "authn/anonymous": [0, 1], "authz/remote": [0, 1, 2], "authz/cel": [0, 1, 2],
+        "ctx/generic": [0, 1, 2],
         "fin/header": [0, 1], "eh/redirect": [0], "eh/default": [0], "eh/www_authenticate": [0]}
 # Tags from TYPED on name the VALUES of the case's `ovr` table (`ovr[tag - TYPED]`): the model decodes the value itself
 # (strict decoding per mechanism type, Model/FactoryOverride.lean) instead of being told whether it is acceptable.
@@ -43,7 +282,7 @@ def decl(kind, mid, typ):
 # the catalogue keeps one name space per kind.  All other ids exist for one kind only.
 CATALOGUE = (
     [decl("authn", i, "generic") for i in ("g1", "g2", "g3", "duo")] + [decl("authn", "anon", "anonymous")]
-    + [decl("authz", i, "remote") for i in ("z1", "z2", "z3", "keto")]
+    + [decl("authz", i, "remote") for i in ("z1", "z2", "z3", "keto")] + [decl("authz", i, "cel") for i in ("x1", "x2")]
     + [decl("ctx", i, "generic") for i in ("c1", "c2", "c3", "keto")]
     + [decl("fin", i, "header") for i in ("f1", "f2", "f3", "keto")]
     + [decl("eh", i, "redirect") for i in ("e1", "e2", "e3", "duo")] + [decl("eh", "edef", "default")]
@@ -81,10 +320,15 @@ def payload(kind, mid, tag):
 
 
 def step(keys, cond="absent", cfg=None, on_error=False):
-    """keys: dict key -> mechanism id (insertion order irrelevant: heimdall reads a map)"""
-    s = {"keys": dict(keys), "cond": cond}
-    if cond != "absent":
-        s["if"] = COND_LITERAL[cond]
+    """keys: dict key -> mechanism id (insertion order irrelevant: heimdall reads a map); cond: a condition class of
+    the older streams, or a CEL tree (the step's `if` is its text, the model types the tree)"""
+    if isinstance(cond, dict):
+        s = {"keys": dict(keys), "cond": "cel", "if": cel_render(cond)}
+        assert CEL.setdefault(s["if"], cond) == cond, "two trees for " + s["if"]
+    else:
+        s = {"keys": dict(keys), "cond": cond}
+        if cond != "absent":
+            s["if"] = COND_LITERAL[cond]
     if cfg is not None:
         # the payload is the one of the mechanism heimdall will pick: first key in its lookup order
         order = ["error_handler"] if on_error else LOOKUP_ORDER
@@ -103,6 +347,40 @@ def case(mode, default, rules, path="yaml", ovr=None):
     c = {"fam": "factory", "mode": mode, "path": path, "cat": CATALOGUE, "default": default, "rules": rules}
     if ovr:
         c["ovr"] = list(ovr.values if isinstance(ovr, Overrides) else ovr)
+    return with_cel(c)
+
+
+def _expression_texts(v):
+    if isinstance(v, dict):
+        for k, e in v.items():
+            if k == "expression" and isinstance(e, str) and e:
+                yield e
+            else:
+                yield from _expression_texts(e)
+    elif isinstance(v, list):
+        for e in v:
+            yield from _expression_texts(e)
+
+
+def with_cel(c):
+    """the table `cel` of the case: the tree of every CEL text in use (conditions of class `cel`, `expression`
+    strings of the typed override values)"""
+    used = []
+    owners = ([c["default"]] if c.get("default") else []) + list(c["rules"])
+    for o in owners:
+        for lst_ in ("execute", "on_error"):
+            for st in (o.get(lst_) or []):
+                if st.get("cond") == "cel" and st["if"] not in used:
+                    used.append(st["if"])
+    for v in c.get("ovr") or []:
+        for t in _expression_texts(v):
+            if t not in used:
+                used.append(t)
+    known = {e["src"]: e["ast"] for e in c.get("cel") or []}
+    known.update(CEL)
+    c.pop("cel", None)
+    if used:
+        c["cel"] = [{"src": t, "ast": known[t]} for t in used if t in known]
     return c
 
 
@@ -136,17 +414,27 @@ def restep(s, keys=None, cond=None, drop_cfg=False, on_error=False):
     """the step `s` with other keys / another condition / without its override (used by the shrinker)"""
     keys = s["keys"] if keys is None else keys
     cond = s.get("cond", "absent") if cond is None else cond
+
+    def mk(cfg):
+        n = step(keys, "absent" if cond == "cel" else cond, cfg, on_error)
+        if cond == "cel":
+            n["cond"], n["if"] = "cel", s["if"]
+        return n
     if drop_cfg or s.get("cfg") is None:
-        return step(keys, cond, None, on_error)
+        return mk(None)
     if s["cfg"] >= TYPED:
-        n = step(keys, cond, None, on_error)
+        n = mk(None)
         n["cfg"], n["config"] = s["cfg"], s["config"]
         return n
-    return step(keys, cond, s["cfg"], on_error)
+    return mk(s["cfg"])
 
 
 def compact(c):
-    """drop the entries of the `ovr` table no step refers to and renumber the tags"""
+    """drop the entries of the `ovr` table no step refers to and renumber the tags; keep the CEL trees in use"""
+    return with_cel(_compact_ovr(c))
+
+
+def _compact_ovr(c):
     if not c.get("ovr"):
         c.pop("ovr", None)
         return c
@@ -218,18 +506,34 @@ def gen_stage_steps(rng, kind, n, p_defect, on_error=False):
         if rng.random() < 0.12 and any(i in ids for i in SHARED_IDS):
             mid = rng.choice([i for i in SHARED_IDS if i in ids])
         if rng.random() < p_defect:
-            # unknown: no such id at all, or an id that exists for another kind only
+            # unknown: no such id at all, an id that exists for another kind only, the name of a mechanism TYPE (of
+            # this or another kind), a catalogue id in another case / with white space around it
             mid = rng.choice(["nope", ids[0] + "x",
-                              rng.choice([d["id"] for d in CATALOGUE if d["kind"] != kind and d["id"] not in ids])])
+                              rng.choice([d["id"] for d in CATALOGUE if d["kind"] != kind and d["id"] not in ids]),
+                              rng.choice(TYPE_NAMES[kind]), rng.choice(ALL_TYPE_NAMES),
+                              rng.choice(respellings(rng.choice(ids)))])
         cond = "absent"
         r = rng.random()
-        if r < 0.25:
+        if r < 0.15:
             cond = "expr"
+        elif r < 0.25:
+            # a boolean expression, most of them over dynamically typed sub-terms
+            cond = rng.choice(COND_ANY if on_error or rng.random() < 0.5 else COND_SUBJECT)
         elif r < 0.25 + p_defect:
-            cond = rng.choice(["empty", "invalid", "nonstring"])
+            cond = rng.choice(["empty", "invalid", "nonstring"] + [rng.choice(CEL_BAD[k]) for k in CEL_BAD]
+                              + [rng.choice(CEL_DYN)])
         cfg = pick_tag(rng, kind, mid, p_defect)
         steps.append(step({KEY_OF[kind]: mid}, cond, cfg, on_error))
     return steps
+
+
+def respellings(mid):
+    """ids that differ from a catalogue id in case or in white space only: different ids"""
+    res = []
+    for v in (mid.upper(), mid.capitalize(), " " + mid, mid + " ", mid + "\t", " " + mid + " "):
+        if v != mid and v not in res:
+            res.append(v)
+    return res
 
 
 def gen_execute(rng, stages, p_defect):
@@ -252,7 +556,7 @@ def gen_execute(rng, stages, p_defect):
         extra = rng.choice(["authenticator", "authorizer", "contextualizer", "finalizer", "error_handler"])
         keys = dict(ex[i]["keys"])
         keys.setdefault(extra, rng.choice([d["id"] for d in BY_KIND[KIND_OF[extra]]]))
-        ex[i] = step(keys, ex[i]["cond"], ex[i]["cfg"])
+        ex[i] = restep(ex[i], keys=keys)
     return ex
 
 
@@ -651,6 +955,150 @@ def grid_lookalikes():
     return cases
 
 
+# ---------------------------------------------------------------------------------------------------------------
+# unknown references, conditions and expressions
+
+COMPLETE_DEFAULT = default_rule([step({"authenticator": "g3"}), step({"authorizer": "z3"}), step({"finalizer": "f3"})],
+                                [step({"error_handler": "e3"}, on_error=True)], True)
+
+
+def ref_rule(kind, mid, alone, cond="absent", cfg=None):
+    """a rule whose only possible defect is the step referencing `mid` as a mechanism of `kind` (`alone`: the step is
+    all the rule has, the other stages come from the default rule)"""
+    if kind == "eh":
+        return rule([] if alone else [step({"authenticator": "g1"})], [step({"error_handler": mid}, cond, cfg, True)])
+    s = step({KEY_OF[kind]: mid}, cond, cfg)
+    return rule([s] if alone or kind == "authn" else [step({"authenticator": "g1"}), s])
+
+
+def unknown_ids(kind):
+    """ids the catalogue does not define for `kind`: the names of all mechanism types heimdall knows (of every kind),
+    catalogue ids of the other kinds, re-spellings of an own id"""
+    own = [d["id"] for d in BY_KIND[kind]]
+    other = []
+    for k in ("authn", "authz", "ctx", "fin", "eh"):
+        if k != kind:
+            other += [d["id"] for d in BY_KIND[k] if d["id"] not in own][:2]
+    return [n for n in ALL_TYPE_NAMES if n not in own] + other + respellings(own[0]) + respellings(own[-1])[:2]
+
+
+def grid_unknown_refs():
+    """every kind x every id the catalogue does not define for it (type names of every kind, ids of other kinds,
+    re-spelled ids), with a complete default rule (the step alone: it would replace the inherited stage) and
+    without; all load paths"""
+    cases = []
+    n = 0
+    for d in (None, COMPLETE_DEFAULT):
+        for kind in ("authn", "authz", "ctx", "fin", "eh"):
+            rules = [ref_rule(kind, mid, d is not None and kind != "eh") for mid in unknown_ids(kind)]
+            # one reference the catalogue does define, so that a check which refuses everything is noticed
+            rules.append(ref_rule(kind, BY_KIND[kind][0]["id"], d is not None and kind != "eh"))
+            for ch in chunks(rules, 10):
+                n += 1
+                cases.append(case("decision", d, ch, PATHS[n % 3]))
+    return cases
+
+
+def conds_for(kind):
+    """the `if` conditions a step of `kind` can carry with known run-time value, and all that must be refused"""
+    good = COND_ANY + ([] if kind == "eh" else COND_SUBJECT)
+    return good + CEL_ALL_BAD
+
+
+def grid_conditions():
+    """every kind of step (execute steps of the four kinds, error handlers) x every expression of the table as its
+    `if`, with and without default rule; conditions inside the default rule"""
+    cases = []
+    n = 0
+    for d in (None, COMPLETE_DEFAULT):
+        for kind in ("authn", "authz", "ctx", "fin", "eh"):
+            mids = [x["id"] for x in BY_KIND[kind]][:3]
+            rules = [ref_rule(kind, mids[k % len(mids)], d is not None and kind != "eh", e)
+                     for k, e in enumerate(conds_for(kind))]
+            for ch in chunks(rules, 10):
+                n += 1
+                cases.append(case("decision", d, ch, PATHS[n % 3]))
+    # the default rule itself: one representative per class on an authorizer, a finalizer and an error handler
+    probe = [rule([step({"authenticator": "g1"})]), rule([step({"contextualizer": "c1"})])]
+    for e in [COND_ANY[5], COND_SUBJECT[2], CEL_NONBOOL[0], CEL_DYN[0], CEL_DYN[7], CEL_SYNTAX[1], CEL_UNKNOWN[0]]:
+        for where in ("authz", "fin", "eh"):
+            if where == "eh" and e in COND_SUBJECT:
+                continue
+            ex = [step({"authenticator": "g3"}), step({"authorizer": "z3"}, e if where == "authz" else "absent"),
+                  step({"finalizer": "f3"}, e if where == "fin" else "absent")]
+            eh = [step({"error_handler": "e3"}, e if where == "eh" else "absent", None, True)]
+            cases.append(case("decision", default_rule(ex, eh, None), probe))
+    # `uniqueItems` of the default rule's lists: steps that differ in the text of their `if` only are different steps
+    # (also on authenticators, whose `if` is never read), steps with the same text are duplicates
+    for a, b in ((COND_ANY[0], COND_ANY[1]), (COND_ANY[0], COND_ANY[0]), (CEL_DYN[0], CEL_SYNTAX[0])):
+        cases.append(case("decision", default_rule([step({"authenticator": "g3"}), step({"finalizer": "f3"}, a),
+                                                    step({"finalizer": "f3"}, b)], ABSENT, None), probe))
+        cases.append(case("decision", default_rule([step({"authenticator": "g3"}, a), step({"authenticator": "g3"}, b)],
+                                                   ABSENT, None), probe))
+    return cases
+
+
+def expression_values(typ):
+    """rule-level `config` values for the `expressions` of a cel / remote authorizer: one entry per expression of the
+    table (valid ones for that type's run-time context, and everything that must be refused), and malformed shapes"""
+    good = EXPR_CEL if typ == "cel" else EXPR_REMOTE
+    t, d = cel_render(good[0]), cel_render(CEL_DYN[0])
+    vals = [{"expressions": [{"expression": cel_render(e)}]} for e in good + CEL_ALL_BAD]
+    vals += [
+        {"expressions": [{"expression": t, "message": "m"}]}, {"expressions": [{"expression": t, "message": None}]},
+        {"expressions": [{"expression": t, "message": 1}]}, {"expressions": [{"expression": t, "foo": 1}]},
+        {"expressions": [{"expression": d, "message": "m"}]},
+        {"expressions": [{"expression": t}, {"expression": cel_render(good[1])}]},
+        {"expressions": [{"expression": t}, {"expression": d}]}, {"expressions": [{"expression": d}, {"expression": t}]},
+        {"expressions": [{"expression": t}, {"expression": cel_render(CEL_NONBOOL[0])}]},
+        {"expressions": [{"expression": ""}]}, {"expressions": [{"expression": None}]},
+        {"expressions": [{"expression": 1}]}, {"expressions": [{"expression": True}]},
+        {"expressions": [{"message": "m"}]}, {"expressions": [{}]}, {"expressions": []}, {"expressions": None},
+        {"expressions": t}, {"expressions": [t]}, {"expressions": {"expression": t}}, {"expressions": [None]},
+        {"expressions": [{"expression": t}], "cache_ttl": "1s"}, {"expressions": [{"expression": d}], "cache_ttl": "1s"},
+        {"expressions": [{"expression": t}], "values": {"v": "a"}},
+    ]
+    return vals
+
+
+EXPRESSION_IDS = {"cel": ["x1", "x2"], "remote": ["z1", "z2", "keto"]}
+
+
+def expression_rule(ov, mid, value, rng=None, forward_to=False):
+    r = rng.random() if rng else 1.0
+    s = ov.step({"authorizer": mid}, value, rng.choice(COND_ANY + COND_SUBJECT) if rng and r < 0.15 else "absent")
+    ex = [step({"authenticator": "anon"}), s] + ([step({"finalizer": "f3"})] if r >= 0.3 else [])
+    return rule(ex, ABSENT, None, forward_to)
+
+
+def grid_expressions():
+    """cel and remote authorizer x every value of `expression_values`, as histories of 10 rules of one factory"""
+    cases = []
+    n = 0
+    for typ in ("cel", "remote"):
+        vals = expression_values(typ)
+        for ch in chunks(vals, 10):
+            n += 1
+            ov = Overrides()
+            mids = EXPRESSION_IDS[typ]
+            rules = [expression_rule(ov, mids[(n + k) % len(mids)], v) for k, v in enumerate(ch)]
+            cases.append(case("decision", COMPLETE_DEFAULT if n % 3 == 0 else None, rules, PATHS[n % 3], ov))
+    return cases
+
+
+def gen_expression_case(rng):
+    """one factory, 2..5 rules overriding the `expressions` of cel / remote authorizers (any order, repetitions)"""
+    ov = Overrides()
+    mode = "proxy" if rng.random() < 0.2 else "decision"
+    rules = []
+    for _ in range(rng.choice([2, 2, 3, 4, 5])):
+        typ = rng.choice(["cel", "remote"])
+        vals = expression_values(typ)
+        rules.append(expression_rule(ov, rng.choice(EXPRESSION_IDS[typ]), rng.choice(vals), rng,
+                                     mode == "proxy" or rng.random() < 0.3))
+    return case(mode, None if rng.random() < 0.7 else COMPLETE_DEFAULT, rules, rng.choice(PATHS), ov)
+
+
 def small_scope(maxlen=4):
     return (grid_orderings(maxlen) + grid_backtracking() + grid_steps() + grid_spellings() + grid_shared_ids()
-            + grid_lookalikes())
+            + grid_lookalikes() + grid_unknown_refs() + grid_conditions() + grid_expressions())
